@@ -46,6 +46,8 @@ func c14RPC(w *env.World, d *env.Direct, kind, outcome, tag string) {
 		herr = fmt.Errorf("reading upstream: %w", io.EOF)
 	case "herr-plain":
 		herr = errors.New("plain failure")
+	case "herr-ok-coded": // a non-nil error whose own gRPC status says OK: the handler still failed
+		herr = okCodedError{}
 	case "herr-canceled": // e.g. the error of a downstream call, not a cancellation of this RPC
 		herr = context.Canceled
 	}
@@ -53,9 +55,13 @@ func c14RPC(w *env.World, d *env.Direct, kind, outcome, tag string) {
 		ctx, cancel := context.WithCancel(context.Background())
 		defer cancel()
 		switch {
-		case outcome == "deadline":
+		case outcome == "deadline" || outcome == "deadline-sub-ms":
 			var c2 context.CancelFunc
-			ctx, c2 = context.WithTimeout(ctx, 50*time.Millisecond)
+			dl := 50 * time.Millisecond
+			if outcome == "deadline-sub-ms" {
+				dl = 700 * time.Microsecond // below the header's resolution: the one-millisecond floor must still reach the server
+			}
+			ctx, c2 = context.WithTimeout(ctx, dl)
 			defer c2()
 			w.Unaries[tag] = func(r *env.Rec, hctx context.Context, in string) (string, error) {
 				<-hctx.Done()
@@ -83,13 +89,17 @@ func c14RPC(w *env.World, d *env.Direct, kind, outcome, tag string) {
 	}
 	ctx, cancel := context.WithCancel(context.Background())
 	defer cancel()
-	if outcome == "deadline" {
+	if outcome == "deadline" || outcome == "deadline-sub-ms" {
 		var c2 context.CancelFunc
-		ctx, c2 = context.WithTimeout(ctx, 50*time.Millisecond)
+		dl := 50 * time.Millisecond
+		if outcome == "deadline-sub-ms" {
+			dl = 700 * time.Microsecond
+		}
+		ctx, c2 = context.WithTimeout(ctx, dl)
 		defer c2()
 	}
 	switch outcome {
-	case "ok", "herr", "herr-eof", "herr-wrapped-eof", "herr-plain", "herr-canceled":
+	case "ok", "herr", "herr-eof", "herr-wrapped-eof", "herr-plain", "herr-canceled", "herr-ok-coded":
 		switch kind {
 		case "SStream":
 			w.Handlers[tag] = func(r *env.Rec, ss grpc.ServerStream) error {
@@ -171,7 +181,7 @@ func c14RPC(w *env.World, d *env.Direct, kind, outcome, tag string) {
 		runOps(r, cs, ops[:k], never, &log, &n)
 		cancel()
 		runOps(r, cs, "R", never, &log, &n)
-	case outcome == "deadline":
+	case outcome == "deadline" || outcome == "deadline-sub-ms":
 		runOps(r, cs, "SRR", never, &log, &n) // the second R blocks until the deadline
 	case outcome == "lateempty":
 		// zero-length messages sent while the handler is returning / has returned
@@ -194,7 +204,7 @@ func c14RPC(w *env.World, d *env.Direct, kind, outcome, tag string) {
 func c14(tier string) []*explore.Scenario {
 	var out []*explore.Scenario
 	kinds := []string{"Unary", "Bidi", "SStream", "CStream"}
-	outcomes := []string{"ok", "herr", "cancel0", "cancel1", "cancel2", "cancel3", "deadline", "reset", "lateempty", "openfail", "sendfail", "cancelsend", "cancelinsend"}
+	outcomes := []string{"ok", "herr", "cancel0", "cancel1", "cancel2", "cancel3", "deadline", "reset", "lateempty", "openfail", "sendfail", "cancelsend", "cancelinsend", "deadline-sub-ms"}
 	bound := 1
 	if tier == "thorough" {
 		bound = 2
@@ -633,3 +643,9 @@ func c14Pending(k, s, rounds, bound int) *explore.Scenario {
 		},
 	}
 }
+
+// okCodedError is an error that implements GRPCStatus with code OK (0, the smallest code).
+type okCodedError struct{}
+
+func (okCodedError) Error() string              { return "failed, but with an OK-coded status" }
+func (okCodedError) GRPCStatus() *status.Status { return status.New(codes.OK, "not really ok") }
